@@ -373,18 +373,29 @@ def _tup(x):
 
 def py_value(text, rec):
     env = {c: pd.Series(v, dtype=float) for c, v in COLS.items()}
-    env.update(rec=rec, np=np, probe=probe, m=MISSING.copy())
+    env.update(USER, rec=rec, np=np, probe=probe, m=MISSING.copy())
     return eval(text, {"__builtins__": {}}, env)  # pylint: disable=eval-used
 
 
 MISSING = np.array([1.5, np.nan, 0.5, np.nan, 2.0, -1.0, 0.25])
 
 
+def _user_round(v, nd=0):  # functions of the caller that carry the names of Python built-ins
+    return np.asarray(v, dtype=float) * 7 + nd
+
+
+def _user_max(v):
+    return np.asarray(v, dtype=float) - 100
+
+
+USER = {"round": _user_round, "max": _user_max}
+
+
 def lib_design(formula, rec):
     from formulae import design_matrices
 
     frame = pd.DataFrame(dict(COLS, y=[float(i) for i in range(N)]))
-    return design_matrices(formula, frame, extra_namespace={"rec": rec, "np": np, "probe": probe, "m": MISSING.copy()})
+    return design_matrices(formula, frame, extra_namespace=dict(USER, rec=rec, np=np, probe=probe, m=MISSING.copy()))
 
 
 @st.composite
@@ -620,10 +631,33 @@ def twin_pairs(ctx):
                     ctx.fail("name", case, f"different calls {w}({first}) and {w}({second}) are one term: {list(two.common.terms)}", "different_calls")
 
 
+LITERALS = [
+    ("call", "rec", (("num", "9007199254740993"),), ()),  # 2 ** 53 + 1: not a double
+    ("call", "rec", (("col", "x"),), (("k", ("num", "1600000000000000001")),)),
+    ("bin", ">", ("bin", "*", ("col", "x"), ("num", "9007199254740993")), ("num", "9007199254740992")),
+    ("call", "rec", (("str", "'a  b'"),), ()),  # blanks inside a string are part of the string
+    ("call", "rec", (("str", "'a\tb'"),), ()),
+    ("call", "rec", (("str", "'  lead and trail  '"), ("str", '"two  blanks"')), ()),
+    ("call", "rec", (("num", "0.1"), ("num", "0.30000000000000004")), ()),
+    ("call", "round", (("col", "x"),), ()),  # the caller's own `round` and `max`, not Python's
+    ("call", "rec", (("call", "round", (("col", "z"),), (("nd", ("num", "2")),)),), (("k", ("call", "max", (("col", "w"),), ())),)),
+]
+
+
+def literal_cases(ctx):
+    """Literals and names that a normalisation step could change on the way: integers beyond 2 ** 53, blanks inside
+    strings, user functions named like built-ins."""
+    for i, t in enumerate(LITERALS):
+        for wrapper in ("probe", "I"):
+            judge(ctx, {"tree": t, "layout_seed": i, "wrapper": wrapper, "other": None})
+
+
 def _worker(ctx, arg):
     shard, n = arg
     if shard == 0:
         twin_pairs(ctx)
+    if shard == 1:
+        literal_cases(ctx)
     core.run_hypothesis(ctx, case_strategy(), judge, n, shard=shard)
     core.run_hypothesis(ctx, comparison_chain(), judge, max(20, n // 20), shard=shard, salt=7)
 
